@@ -171,7 +171,7 @@ def _nan_eq(a, b):
 def not_object(ctx, dec_lines, dec_meta):
     """Validly signed / encrypted payloads that are not JSON objects."""
     from joserfc import jwt, jwe, jws
-    payloads = [b"[1,2]", b"\"x\"", b"7", b"null", b"true", b"1.5", b"", b"{", b"not json", b"\xff\xfe", b"[" * 5000, b"{\"a\":1}x", b" {\"a\": 1} ", b"{\"a\":1}"]
+    payloads = [b"[1,2]", b"\"x\"", b"7", b"null", b"true", b"1.5", b"", b"{", b"not json", b"\xff\xfe", b"{\"sub\":\"\xff\xfe\"}", b"\x80\x81\x82 binary blob", b"{\"a\":1}\xc3", b"\xc3\x28", b"[" * 5000, b"{\"a\":1}x", b" {\"a\": 1} ", b"{\"a\":1}"]
     oct_k = K.key("oct32")
     for p in payloads:
         for transport in ("jws", "jwe"):
